@@ -155,3 +155,13 @@ Theorem contraction_rendered_map :
     then Some (ContractionCount.prims_of am shs, ContractionCount.conts_of am shs) else None.
 Proof. exact ContractionSort.rendered_map_lemma. Qed.
 Print Assumptions contraction_rendered_map.
+
+(* ---- names <-> file names beyond the shipped index.  The round trip is NOT a law of the two functions: a name in
+   which '*' is followed by "sl/" comes back different even though it contains no underscore (the closing '_' of
+   "_st_" and the opening "sl_" of the next escape read as "_sl_").  No shipped name has that shape
+   (name_filename_roundtrip_shipped above); replayed on the implementation:
+   basis_name_from_filename(basis_name_to_filename('*sl/')) == '_st/sl_'. ---- *)
+Theorem name_filename_roundtrip_general_refuted :
+  exists n, infix "_" n = false /\ basis_name_from_filename (transform_basis_name n) <> lower n.
+Proof. exists "*sl/". split; [vm_compute; reflexivity | vm_compute; discriminate]. Qed.
+Print Assumptions name_filename_roundtrip_general_refuted.
